@@ -38,6 +38,163 @@ def cpoints(g, z, p):
     return [(a, b) for a in res for b in ims][:9]
 
 
+CENCL = ["exp", "cos", "sin", "log"]
+CREL = ["gamma", "rgamma", "loggamma", "factorial", "cpow"]
+
+
+def moderate_rect(g, p, maxtop, mintop=-30):
+    return (c14.moderate_interval(g, p, maxtop, mintop=mintop), c14.moderate_interval(g, p, maxtop, mintop=mintop))
+
+
+def cref(mp, y, q):
+    """rectangle around the library's high-precision point value: each part widened by 2^(12-q) |y|"""
+    d = abs(y) * mp.mpf(2) ** (12 - q)
+    saved = mp.prec
+    mp.prec = q + 20
+    try:
+        return ((y.real - d)._mpf_, (y.real + d)._mpf_), ((y.imag - d)._mpf_, (y.imag + d)._mpf_)
+    finally:
+        mp.prec = saved
+
+
+def coutside_bucket(mpmath, f, p, out, zs, ws):
+    """how far outside the returned rectangle the library's high-precision point value lies, in ulps (precision p) of
+    the violated bound -- used for reporting and known-finding keys only"""
+    mp = mpmath.mp
+    saved = mp.prec
+    mp.prec = 3 * p + 300
+    worst = mp.mpf(0)
+    try:
+        (ra, rb), (ia, ib) = [[mp.make_mpf(tuple(q)) for q in part] for part in out]
+        if ra > rb or ia > ib:
+            return "lower>upper"
+        for a, b in zs:
+            Z = mp.mpc(mp.make_mpf(tuple(a)), mp.make_mpf(tuple(b)))
+            for w in (ws or [None]):
+                try:
+                    y = Z ** mp.mpc(mp.make_mpf(tuple(w[0])), mp.make_mpf(tuple(w[1]))) if f == "cpow" else getattr(mp, f)(Z)
+                except (ZeroDivisionError, ValueError):
+                    continue
+                y = mp.mpc(y)
+                if not (mp.isfinite(y.real) and mp.isfinite(y.imag)):
+                    continue
+                for end, d, v in ((ra, ra - y.real, y.real), (rb, y.real - rb, y.real), (ia, ia - y.imag, y.imag), (ib, y.imag - ib, y.imag)):
+                    if mp.isfinite(end) and d > 0:
+                        ulp = mp.mpf(2) ** (mp.mag(end) - p) if end != 0 else mp.mpf(2) ** (mp.mag(v) - p)
+                        worst = max(worst, d / ulp)
+        if worst == 0:
+            return "not-reproduced-by-library-reference"
+        for name, lim in (("<2^-10ulp", mp.mpf(2) ** -10), ("<2^-3ulp", mp.mpf(2) ** -3), ("<=1ulp", 1), ("<=2ulp", 2)):
+            if worst <= lim:
+                return name
+        return ">2ulp"
+    finally:
+        mp.prec = saved
+
+
+def cfun_event(mpmath, g, eid, f, lvl, p, z, w, mayraise):
+    """one complex interval function call -> civfun (spec enclosures) or civrel (relational) event"""
+    iv, mp, lm = mpmath.iv, mpmath.mp, mpmath.libmp
+    iv.prec = p
+    try:
+        Z = iv.make_mpc(z)
+        if f == "cpow":
+            out = lm.mpci_pow(z, w, p) if lvl == "libmp" else (Z ** iv.make_mpc(w))
+        elif lvl == "libmp":
+            out = getattr(lm, "mpci_" + f)(z, p)
+        else:
+            out = getattr(iv, f)(Z)
+        if hasattr(out, "_mpci_"):
+            out = out._mpci_
+        elif hasattr(out, "_mpi_"):
+            out = (out._mpi_, (gen.FZERO, gen.FZERO))
+    except (ZeroDivisionError, ValueError, NotImplementedError, lm.ComplexResult) as e:
+        out = e
+    finally:
+        iv.prec = 53
+    zs = cpoints(g, z, p)
+    ws = cpoints(g, w, p)[:2] if w else []
+    try:
+        o = enc.exc(out) if isinstance(out, BaseException) else enc.cv(out)
+        if f in CENCL:
+            zs = list(dict.fromkeys(zs))[:6]
+            if f == "log":
+                zs = [(a, b) for a, b in zs if not (b == gen.FZERO and (a == gen.FZERO or a[0] == 1))]     # off the cut and the origin
+            if not zs and not isinstance(out, BaseException):
+                return None
+            x = {"f": f, "w": p + 90, "zs": [{"re": enc.f(a), "im": enc.f(b)} for a, b in zs], "mayraise": mayraise}
+            event = enc.event(eid, "civfun", [], p, "n", o, pb=0, x=x)
+        else:
+            q = 3 * p + 200
+            refs = []
+            mp.prec = q
+            try:
+                for a, b in zs:
+                    Zp = mp.mpc(mp.make_mpf(a), mp.make_mpf(b))
+                    for wp_ in (ws or [None]):
+                        try:
+                            if f == "cpow":
+                                if Zp == 0 or (Zp.imag == 0 and Zp.real < 0):
+                                    continue
+                                y = Zp ** mp.mpc(mp.make_mpf(wp_[0]), mp.make_mpf(wp_[1]))
+                            else:
+                                if Zp.imag == 0 and Zp.real <= 0 and (f == "loggamma" or Zp.real == mp.floor(Zp.real)):
+                                    continue                           # poles / the cut of loggamma
+                                if f == "factorial" and Zp.imag == 0 and Zp.real < 0 and Zp.real == mp.floor(Zp.real):
+                                    continue
+                                y = getattr(mp, f)(Zp)
+                        except (ZeroDivisionError, ValueError):
+                            continue
+                        y = mp.mpc(y)
+                        if not (mp.isfinite(y.real) and mp.isfinite(y.imag)) or y == 0:
+                            continue
+                        refs.append(cref(mp, y, q))
+            finally:
+                mp.prec = 53
+            if not refs and not isinstance(out, BaseException):
+                return None
+            x = {"f": f, "refs": [{"re": enc.v(rr), "im": enc.v(ii)} for rr, ii in refs[:8]], "mayraise": mayraise}
+            event = enc.event(eid, "civrel", [], p, "n", o, pb=0, x=x)
+        m = {"f": f, "lvl": lvl, "p": p, "n": 0, "fun": True, "z": [[list(map(int, q_)) for q_ in part] for part in z],
+             "w": [[list(map(int, q_)) for q_ in part] for part in w] if w else [],
+             "zs": [[list(map(int, a)), list(map(int, b))] for a, b in zs], "ws": [[list(map(int, a)), list(map(int, b))] for a, b in ws],
+             "out": [[list(map(int, q_)) for q_ in part] for part in out] if not isinstance(out, BaseException) else None}
+        return event, m
+    except enc.EncodeRange:
+        return None
+
+
+def function_events(chk, mpmath, g, start, n=None):
+    r = g.r
+    events, meta = [], {}
+    for k in range(n or chk.pick(250, 15000)):
+        p = r.choice([10, 24, 53, 53, 100, r.randint(9, 120)])
+        f = r.choice(CENCL + CENCL + CREL)
+        w = None
+        mayraise = False
+        if f in ("exp", "cos", "sin"):
+            z = moderate_rect(g, p, r.choice([2, 5, 7]))
+        elif f == "log":
+            z = moderate_rect(g, p, 40, mintop=-40)
+            mayraise = True                                            # a rectangle containing the origin may raise
+        elif f == "cpow":
+            z = moderate_rect(g, p, 4, mintop=-6); w = moderate_rect(g, p, 2, mintop=-6)
+            mayraise = True
+        else:
+            z = moderate_rect(g, p, r.choice([2, 4, 6]), mintop=-8)
+            if r.random() < 0.4:
+                # around the minimum of gamma on the positive axis (1.4616...): the real range straddles it, small imaginary parts
+                lo = gen.mk(r.randint(2 ** 9, 3 * 2 ** 9 - 40), -10); hi = gen.mk(r.randint(3 * 2 ** 9 - 20, 3 * 2 ** 10), -10)
+                y1, y2 = sorted([r.randint(-1100, 1100), r.randint(-1100, 1100)])
+                z = ((lo, hi), (gen.mk(y1, -10), gen.mk(y2, -10)))
+            mayraise = True                                            # rectangles containing poles
+        lvl = r.choice(["libmp", "ctx"])
+        made = cfun_event(mpmath, g, start + len(events), f, lvl, p, z, w, mayraise)
+        if made is not None:
+            events.append(made[0]); meta[made[0]["id"]] = made[1]
+    return events, meta
+
+
 def main():
     chk = core.Check(PROP, LEVEL)
     mpmath = core.use_repo()
@@ -80,7 +237,24 @@ def main():
                          "w": [[list(map(int, q)) for q in part] for part in w]}
         except enc.EncodeRange:
             continue
+    events3, meta3 = function_events(chk, mpmath, g, len(events))
+    events += events3; meta.update(meta3)
+    pinned = {}
+    for k in chk.known:
+        if k.get("status") == "known" and "rep" in k:
+            rep = k["rep"]
+            tt = lambda part: tuple(tuple(q) for q in part)
+            made = cfun_event(mpmath, g, len(events), rep["f"], rep["lvl"], rep["p"], tuple(tt(part) for part in rep["z"]),
+                              tuple(tt(part) for part in rep["w"]) if rep.get("w") else None, False)
+            if made is None:
+                chk.machinery("pinned representative of %s could not be executed" % k["key"])
+            events.append(made[0]); meta[made[0]["id"]] = dict(made[1], pinned=True); pinned[made[0]["id"]] = k
     bad = tlc.judge(events, tag=PROP)
+    for eid, k in pinned.items():
+        chk.known_line(k, "post" in bad.get(eid, []))
+    und = sum(1 for cl in bad.values() if "undecided" in cl)
+    chk.notes.append("%d function events (spec enclosures: %s; relational: %s); %d events had a member point the enclosure could not place (undecided, not judged)"
+                     % (len(events3), ", ".join(CENCL), ", ".join(CREL), und))
     for ev in events:
         chk.count(); chk.distinct(json.dumps(meta[ev["id"]], sort_keys=True), ev["o"]["k"] != "x")
     chk.add_traces(len(events))
@@ -90,6 +264,14 @@ def main():
     for i, clauses in sorted(bad.items()):
         if "post" in clauses:
             m = meta[i]
+            if m.get("pinned"):
+                continue
+            if m.get("fun"):
+                bucket = "raises" if m["out"] is None else coutside_bucket(mpmath, m["f"], m["p"], m["out"], m["zs"], m["ws"])
+                mm = {k: v for k, v in m.items() if k not in ("zs", "ws", "fun", "pinned")}
+                chk.violation("%s/%s/contain/%s" % (m["f"], m["lvl"], bucket),
+                              "complex interval function result misses the value at a member point (outside by %s): %s" % (bucket, json.dumps(c14.core_abbrev(mm))[:300]), byid[i])
+                continue
             chk.violation("%s/%s/contain" % (m["f"], m["lvl"]), "complex interval result misses an exact point result: %s" % json.dumps(c14.core_abbrev(m))[:300], byid[i])
     chk.cov["rule"] = "seeded rectangles with finite endpoints; sample points = all corner combinations + axis/interior points; distinct = (op, level, rectangles, precision)"
     chk.assumptions += ["multilinearity: real/imaginary parts of +,-,* attain their extremes at corners; powers and quotients are judged at sample points only"]
